@@ -452,7 +452,7 @@ func build(src string) (class, msg string) {
 			class, msg = "hostpanic", fmt.Sprint(r)
 		}
 	}()
-	_, err := scriggo.Build(scriggo.Files{"main.go": []byte(src)}, &scriggo.BuildOptions{Packages: packages})
+	_, err := scriggo.Build(scriggo.Files{"main.go": []byte(src)}, &scriggo.BuildOptions{Packages: packages, AllowGoStmt: true})
 	if err == nil {
 		return "ok", ""
 	}
